@@ -35,7 +35,8 @@ def gen_history(rng, maxlen, mix):
         itv = rng.choice([ITV4, cfloat.encode(1.0), cfloat.encode(16.0), cfloat.encode(0.5)])
         T = threshold(itv)
         d, e, o = cfloat.encode(rng.uniform(1e-4, 0.2)), cfloat.encode(rng.uniform(1e-6, 0.05)), cfloat.encode(rng.uniform(-0.05, 0.05))
-        phc = rng.choice([0, 0, 0, rng.randrange(10 ** 5)])
+        # the PHC driver's number is added verbatim, whatever it is: also values no sane driver reports
+        phc = rng.choice([0, 0, 0, rng.randrange(10 ** 5), rng.choice([-1, -12345, -(10 ** 9), -(10 ** 12), 10 ** 12, 2 ** 40])])
         if k < mix["sync"]:
             age = rng.choice([0, 1, rng.randrange(T * NS + 1), T * NS])
             out.append(("r", d, e, o, rng.randrange(3), itv, 0, age // NS, age % NS, phc, t // NS, t % NS))
@@ -214,6 +215,8 @@ def judge(line, out, want):
         if want == "C09":
             if last is None and st != 0:
                 bad.append("record %d: status %d published before any synchronised report (bound %d, as-of %d.%09d)" % (k, st, bound, as_s, as_n))
+            elif st != 0 and (as_s, as_n) == (0, 0):
+                bad.append("record %d: status %d published with the start-up placeholder (as-of 0, bound %d): no measurement stands behind it" % (k, st, bound))
         prev = (as_s, as_n, va_s, va_n, bound)
     return bad
 
